@@ -1166,7 +1166,9 @@ def evaluate(ctx, exe, mexe, cases, st, record=True):
                        "the covariance accumulated in binary64" % float(eta))
             if D <= 12:
                 st.worst_resid = max(st.worst_resid, residual_over_eta(Cm, P, top, eta, D, d))
-            if D <= 6:
+            # thorough tier: the exact-integer certification is run on every wide-range case and on every fourth other
+            # dense case (its cost per case is fixed, the tier has ~10 times as many cases; see notes "Wave 4")
+            if D <= 6 and (ctx.quick or c["style"] == "wide-range" or i % 4 == 0):
                 status, msg = kept_variance_relative(Cm, P, ev, order, eta, D, d)
                 st.bump(st.relative, status)
                 if status == "fail":
